@@ -316,6 +316,34 @@ impl Recd {
         sent
     }
 
+    /// Real time has passed: run the loop now.  A retransmission it made is a `tk` op; its reaching Failed (the
+    /// handshake deadline) a `dl` op.  Returns (retransmissions seen, failed now).
+    pub async fn poll_timers(&mut self) -> (usize, bool) {
+        let was = self.ep.letter();
+        let sent = self.ep.pump().await;
+        self.note_sent(&sent);
+        let now = self.ep.letter();
+        let failed_now = was == 'H' && now == 'F';
+        let mut ticks = 0;
+        if !sent.is_empty() {
+            ticks = 1;
+            self.ticks_done += 1;
+            self.ops.push("tk".into());
+            if failed_now {
+                // interval tick and deadline became due in the same poll; nothing is sent after the deadline,
+                // so the tick came first, in state Handshaking
+                let d: Vec<String> = sent.iter().flat_map(|d| descr_hs(d)).collect();
+                self.outs.push(format!("H,1,-,{}", d.join("+")));
+            } else { let o = self.obs(&sent); self.outs.push(o); }
+        }
+        if failed_now {
+            self.ops.push("dl".into());
+            let o = self.obs(&[]);
+            self.outs.push(o);
+        }
+        (ticks, failed_now)
+    }
+
     pub async fn close(&mut self) -> Vec<Vec<u8>> {
         self.ep.dtls.close();
         let sent = self.ep.pump().await;
